@@ -173,10 +173,12 @@ def intrinsic_annotations(idx):
     for r in idx.rules.get("get_annotations", []):
         if r.kind != "rule" or len(r.params) != 1:
             continue
-        body = [s for s in r.node.body if not (isinstance(s, ast.Expr) and isinstance(s.value, ast.Constant))]
-        if len(body) == 1 and isinstance(body[0], ast.Return) and isinstance(body[0].value, ast.Set):
+        from sa import dataflow as df
+        rets = df.returns(r.node)
+        straight = not any(isinstance(s, (ast.If, ast.For, ast.While, ast.Try, ast.Match, ast.With)) for s in r.node.body)
+        if straight and len(rets) == 1 and isinstance(rets[0].value, ast.Set):
             names = set()
-            for e in body[0].value.elts:
+            for e in rets[0].value.elts:
                 rr = idx.resolve_expr(r.module, e)
                 if rr is not None and rr.kind == "class":
                     names.add(rr.val.name)
